@@ -397,9 +397,9 @@ def run_traced(name, spec, seed, size, budgets, evaluator="map", explicit=False,
     ev, closer = make_evaluator(evaluator, tr)
     err = None
     alg = None
-    import signal
-    old = signal.signal(signal.SIGALRM, _alarm)
-    signal.alarm(RUN_WATCHDOG_S)
+    import plat as _plat
+    wd = _plat.watchdog(RUN_WATCHDOG_S, on_fire=lambda: RunTimeout(f"run exceeded {RUN_WATCHDOG_S} s of CPU time (or {10 * RUN_WATCHDOG_S} s of wall time)"))
+    wd.__enter__()
     with patched_random(rng):
         try:
             kw = {"evaluator": ev}
@@ -451,8 +451,7 @@ def run_traced(name, spec, seed, size, budgets, evaluator="map", explicit=False,
                 TIMEOUTS += 1
             err = f"{type(e).__name__}: {e} @ " + traceback.format_exc().strip().split("\n")[-3].strip()
         finally:
-            signal.alarm(0)
-            signal.signal(signal.SIGALRM, old)
+            wd.__exit__(None, None, None)
             if closer:
                 closer()
     return tr, alg, err
